@@ -195,8 +195,8 @@ def run(ctx, model=True):
     global _ENUM
     if _ENUM is None:
         _ENUM = enumerate_all()
-    extra = _ENUM if (ctx.tier == "thorough" or ctx.deep) else ctx.rng.sample(_ENUM, 90)
-    return E.run_property(ctx, "C08", oracle, gen=gen, quick=110, thorough=3000, model=model, extra_scenarios=extra)
+    extra = _ENUM if (ctx.tier == "thorough" or ctx.deep) else ctx.rng.sample(_ENUM, 50)
+    return E.run_property(ctx, "C08", oracle, gen=gen, quick=50, thorough=1200, model=model, extra_scenarios=extra)
 
 
 def run_impl_only(ctx):
